@@ -524,13 +524,16 @@ func genC02(c *Ctx) {
 }
 
 func genC03(c *Ctx) {
-	n := c.Scale(4000, 200000)
+	n := c.Scale(6000, 200000)
 	for k := 0; k < n; k++ {
 		p := randomPosition(c.R)
 		classifyPos(c, p)
 		tok := encPos(p)
 		out := c.Emit("allmoves " + tok)
-		c.Emit("slegal " + tok)
+		// the rule-book enumeration is the expensive side (size^2 x 1023 shapes through Spec.step): one position in three
+		if k%3 == 0 {
+			c.Emit("slegal " + tok)
+		}
 		c.Count("nmoves>=" + bucket2(len(strings.Fields(out))))
 	}
 }
